@@ -9,6 +9,11 @@ TB = "CPython 3.12, crosshair-tool 0.0.110, z3 5.1; the import shim of lib/repo_
 
 # id -> (category, technique, text, note, design_ref, engine)
 CHECKS = {
+    "C15": ("model_checking",
+            "CrossHair/z3 symbolic execution of the real overload-resolution loop with stand-in variants (symbolic success pattern), plus solver-enumerated real overload sets through the real check() compared with the direct calls of their variants",
+            "Restricted: (1) OverloadedFunctionDef.check_call / synthesize_call with 1..4 variants that succeed or raise per symbolic bools: first success wins, nothing after it is consulted, rejected with OverloadNoMatchError iff all raise, hint complete; "
+            "(2) 11 real overload sets x 10 argument lists x 4 positions: the variant named by the checked program is the first whose direct call the real checker accepts, and the call is rejected iff none is.",
+            TB + "; 'accepts the arguments' is judged by the real checker on the direct call", "DESIGN.md §5 C15", "E1"),
     "C22": ("model_checking",
             "CrossHair/z3 symbolic execution of the real comptime ownership bookkeeping (GuppyObject creation / _use_wire with symbolic copy-drop bounds and use counts), the real frozenlist under every list method, the real struct-object setattr",
             "Restricted to the kernels: (a) one object from an arbitrary state: a use raises iff it was used before and is not copyable; it is listed as an unused non-droppable value (what the tracer reports as a leak) iff it is not droppable and never used; "
